@@ -1,4 +1,6 @@
 import PyYetiVerif.Props.C06
+import PyYetiVerif.Props.C06b
+import PyYetiVerif.Props.C06c
 #print axioms PyYetiVerif.C06.cgmass_recovers
 #print axioms PyYetiVerif.C06.cgmass_recovers_general
 #print axioms PyYetiVerif.C06.rbmove_comp
@@ -14,3 +16,20 @@ import PyYetiVerif.Props.C06
 #print axioms PyYetiVerif.C06.grounding_iff
 #print axioms PyYetiVerif.C06.effmass_total
 #print axioms PyYetiVerif.C06.cbtf_satisfies_eom
+#print axioms PyYetiVerif.C06.guyan_preserves_eigenpairs
+#print axioms PyYetiVerif.C06.guyanK_eq_blocks
+#print axioms PyYetiVerif.C06.psiResid_eq_blocks
+#print axioms PyYetiVerif.C06.guyanExpand_rows
+#print axioms PyYetiVerif.C06.null_trim_sound
+#print axioms PyYetiVerif.C06.nullExpand_rows
+#print axioms PyYetiVerif.C06.coordchk_trim_sound
+#print axioms PyYetiVerif.C06.trimRef_spec
+#print axioms PyYetiVerif.C06.rbdispchk_recovers_coords
+#print axioms PyYetiVerif.C06.rbdispchk_recovers_grid
+#print axioms PyYetiVerif.C06.coordchk_coords_local
+#print axioms PyYetiVerif.C06.net_force_is_resultant
+#print axioms PyYetiVerif.C06.net_drm_is_resultant
+#print axioms PyYetiVerif.C06.net_force_is_resultant_local
+#print axioms PyYetiVerif.C06.rbmult_eq_mul
+#print axioms PyYetiVerif.C06.cbtf_static_limit
+#print axioms PyYetiVerif.C06.cbtfStaticFrc_eq
